@@ -41,7 +41,7 @@ impl Arena {
         let align = align_of::<T>();
         let size = size_of::<T>();
 
-        let padding = (align - inner.offset % align) % align;
+        let mut padding = (align - inner.offset % align) % align;
         let new_offset = inner.offset + padding + size;
 
         if new_offset > inner.current_buf.len() {
@@ -52,6 +52,9 @@ impl Arena {
             let new_buf: Box<[MaybeUninit<u8>]> = Box::new_uninit_slice(new_capacity);
             let old_buf = std::mem::replace(&mut inner.current_buf, new_buf);
             inner.old_bufs.push(old_buf);
+            // the new buffer is empty: allocate from its start, not from the old buffer's offset
+            inner.offset = 0;
+            padding = 0;
         }
 
         let start = inner.offset + padding;
